@@ -126,6 +126,9 @@ def edit_torrent(metafile: str, args: dict) -> dict:
     meta = dict(sorted(meta.items()))
     temp = str(metafile) + ".part"
     try:
+        if os.path.lexists(temp):
+            # a leftover of an interrupted edit, never written through
+            os.remove(temp)
         pyben.dump(meta, temp)
         os.replace(temp, metafile)
     finally:
